@@ -3,6 +3,7 @@
 package kv
 
 import (
+	"bytes"
 	"encoding/json"
 	"errors"
 	"strings"
@@ -179,6 +180,60 @@ func VH_C13_glob(n int) {
 		}
 		_, found := vhFind(want, got[i].Key)
 		verif.Assert(found, "glob returns only matching keys")
+	}
+	verif.Cover("end")
+}
+
+type vhCapture struct{ chunks [][]byte }
+
+func (c *vhCapture) Write(p []byte) (int, error) {
+	c.chunks = append(c.chunks, p)
+	return len(p), nil
+}
+
+// VH_C13_snapshot: the store a replica has after installing a snapshot equals
+// the store the source had when the snapshot was prepared: same keys, values
+// and versions, nothing that was only in the receiver's previous store
+// survives, nothing written on the source after prepare shows up.
+func VH_C13_snapshot(n int) {
+	_, src, nh, base := vhStore()
+	ps := vhArbMap(src, n, base)
+	ctx, err := src.PrepareSnapshot()
+	verif.Assert(err == nil, "prepare succeeds")
+	if verif.Bool() {
+		// the source moves on while the snapshot is streamed
+		rs := &RaftStore{NodeHost: nh, ClusterID: 1}
+		_, _ = rs.Set(verif.String(1), verif.String(1), 0)
+		if len(ps) > 0 {
+			_ = rs.Delete(ps[0].Key, ps[0].Ver)
+		}
+		verif.Cover("raced")
+	}
+	w := &vhCapture{}
+	verif.Assert(src.SaveSnapshot(ctx, w, nil, nil) == nil, "save succeeds")
+	verif.Assert(len(w.chunks) == 1, "harness: the snapshot is written in one piece")
+	if len(w.chunks) != 1 {
+		return
+	}
+
+	dst := NewLFSM()(1, 2).(*LFSM)
+	old := vhArbMap(dst, 2, base)
+	err = dst.RecoverFromSnapshot(bytes.NewReader(w.chunks[0]), nil, nil)
+	verif.Assert(err == nil, "recover succeeds")
+	if err != nil {
+		return
+	}
+	verif.Assert(len(dst.store.m) == len(ps), "the installed store has exactly the snapshot's keys")
+	for _, p := range ps {
+		got, ok := dst.store.m[p.Key]
+		verif.Assert(ok && got == p, "every pair of the snapshot is installed with its value and version")
+	}
+	for _, o := range old {
+		if _, in := vhFind(ps, o.Key); !in {
+			_, ok := dst.store.m[o.Key]
+			verif.Assert(!ok, "a key that was only in the receiver's previous store does not survive the install")
+			verif.Cover("stale-key")
+		}
 	}
 	verif.Cover("end")
 }
